@@ -151,8 +151,10 @@ def main():
              'kind_free_text': 'pure synchronous calls into the codec compared with an independent reference codec; Hypothesis + exhaustive enumeration'},
             {'name': 'simnet', 'path': 'harness/simnet.py', 'serves_properties': ['C01', 'C05', 'C06', 'C09', 'C10', 'C11', 'C17', 'C19', 'C20'],
              'kind_free_text': 'two real endpoints on a harness-owned network under a virtual-time asyncio loop; programs generated by Hypothesis; monitors over the event log'},
-            {'name': 'rawpeer', 'path': 'harness/rawpeer.py', 'serves_properties': ['C07', 'C08', 'C12', 'C14', 'C15', 'C16'],
-             'kind_free_text': 'one real endpoint against a harness-scripted raw peer speaking reference-codec frames'},
+            {'name': 'rawpeer', 'path': 'harness/programs.py', 'serves_properties': ['C07', 'C08', 'C12', 'C14', 'C15', 'C16'],
+             'kind_free_text': 'one real endpoint against a harness-scripted raw peer speaking reference-codec frames (class RawPeer and the raw* operations of the program interpreter)'},
+            {'name': 'glue', 'path': 'harness/glue_e2e.py', 'serves_properties': ['C01', 'C04', 'C12'],
+             'kind_free_text': "the repository's websocket transports (aiohttp, quart, websockets, asyncwebsockets, channels) driven with an in-memory stand-in for the websocket object (harness/glue.py, harness/glue_e2e.py)"},
         ],
         'checks': checks,
         'not_applicable': na,
